@@ -497,8 +497,13 @@ def explore(chk, drv, quick):
 
 def run(chk, only=None):
     quick = chk.tier == "quick"
-    ok, log = chk.prove(["extract/Extract_C16.vo"])
-    chk.trusted += ["extraction: ExtrOcamlBasic, ExtrOcamlNatInt (nat -> OCaml int; ranks and job ids are tiny); no Extract Constant of our own",
+    ok, log = chk.prove(["extract/Extract_C16.vo"], extra_props=["Properties_C16_source.v"])
+    chk.trusted += ["translator/gen_dispatch.py (statement splitter + shape recognition, ~800 lines of Python): reads the statement sequences, loop ranges, conditions, "
+                    "message tags / destinations, barriers and broadcasts of MPIMaster / MPIWorker / mpi_skel::run off the source into coq/gen/Gen_Disp*.v (one file per "
+                    "function); Properties_C16_source.v is about those generated descriptions and about DispatchGen.v's reading of them (interpreters [..._by]); the MPI "
+                    "layer (per-link queues, matching rule) and the master-only-root loop of test/mpi_dispatcher_test_nomaster.cpp stay hand-written; a function that "
+                    "leaves the recognised shape falls back to its snapshot and is then tied by the runs only",
+                    "extraction: ExtrOcamlBasic, ExtrOcamlNatInt (nat -> OCaml int; ranks and job ids are tiny); no Extract Constant of our own",
                     "ocaml/driver_c16.ml (parsing, printing, state key for exploration), harness/h_c16.cpp, the trace merge in checks/C16.py",
                     "proposed/hook-c16-dispatch-events.diff: the event lines are written where the actions happen",
                     "Open MPI 4.1.4 / Boost.MPI 1.83 behave as the model's MPI layer assumes (below)"]
